@@ -4,6 +4,7 @@ import (
 	"fmt"
 	"go/token"
 	"go/types"
+	"os"
 	"strings"
 
 	"golang.org/x/tools/go/ssa"
@@ -63,6 +64,10 @@ func (x *Engine) dispatch(fr *Frame, st *State, cc *ssa.CallCommon, args []Val, 
 			return resultVal(sig, x.freshResults(st, sig, "mx"))
 		}
 		// dynamic dispatch resolved statically when the receiver was built from a known concrete value
+		if x.externalEffect(st, "interface call without contract") {
+			x.extCalls[key]++
+			return resultVal(sig, x.freshResults(st, sig, "ir"))
+		}
 		x.abstracted("invoke without contract: " + key)
 		x.degrade("interface call without contract: " + key)
 		x.havocAll(st)
@@ -83,7 +88,13 @@ func (x *Engine) dispatch(fr *Frame, st *State, cc *ssa.CallCommon, args []Val, 
 		binds = x.val(fr, mc).Clo.Binds
 	}
 	if callee == nil {
-		// call of a function value of unknown identity
+		// call of a function value of unknown identity: a nil function value panics
+		if fv := x.val(fr, cc.Value); fv.Clo == nil && fv.T != "" && (!fr.hooksOnly || isFieldLoad(cc.Value)) {
+			if os.Getenv("VCGO_DEBUG") != "" {
+				fmt.Fprintf(os.Stderr, "nilfunc at %s: value %T hooksOnly=%v fieldload=%v\n", p, cc.Value, fr.hooksOnly, isFieldLoad(cc.Value))
+			}
+			x.mayPanic(fr, st, fmt.Sprintf("(= %s 0)", fv.T), "nilfunc@"+p)
+		}
 		if cb := x.callbackSpec(fr, cc); cb != nil {
 			if cb.Pure {
 				fv := x.val(fr, cc.Value)
@@ -94,6 +105,10 @@ func (x *Engine) dispatch(fr *Frame, st *State, cc *ssa.CallCommon, args []Val, 
 				return r
 			}
 			return x.applyContract(fr, st, cb, sig, args, p, cb.Key)
+		}
+		if x.externalEffect(st, "call of an unknown function value") {
+			x.extCalls["unknown function value at "+p]++
+			return resultVal(sig, x.freshResults(st, sig, "ur"))
 		}
 		x.abstracted("call of unknown function value")
 		x.degrade("call of an unknown function value at " + p)
@@ -109,6 +124,10 @@ func (x *Engine) dispatch(fr *Frame, st *State, cc *ssa.CallCommon, args []Val, 
 	if fs := x.db.Funcs[key]; fs != nil && !(fr.top && callee == fr.fn) && !x.forceInline[key] && !(x.conc && hasProp(fs.ConcProps, x.curProp) && callee.Blocks != nil) {
 		return x.applyContract(fr, st, fs, sig, args, p, key)
 	}
+	if (callee.Blocks == nil || (callee.Pkg != nil && !isRepoPkg(callee.Pkg.Pkg))) && x.externalEffect(st, "call into another module without contract") {
+		x.extCalls[name]++
+		return resultVal(sig, x.freshResults(st, sig, "xr"))
+	}
 	if callee.Blocks == nil {
 		x.abstracted("external call: " + name)
 		x.degrade("external call without model: " + name)
@@ -119,12 +138,78 @@ func (x *Engine) dispatch(fr *Frame, st *State, cc *ssa.CallCommon, args []Val, 
 	return x.inline(fr, st, callee, args, binds, p)
 }
 
+// isFieldLoad: the function value was read from a struct field (an optional hook), not passed in or captured.
+func isFieldLoad(v ssa.Value) bool {
+	switch v := v.(type) {
+	case *ssa.UnOp:
+		_, ok := v.X.(*ssa.FieldAddr)
+		return ok
+	case *ssa.Field:
+		return true
+	}
+	return false
+}
+
 func (x *Engine) callbackSpec(fr *Frame, cc *ssa.CallCommon) *FuncSpec {
 	// contract attached to a named function type: key "pkgpath.TypeName.call"
 	if n, ok := cc.Value.Type().(*types.Named); ok && n.Obj().Pkg() != nil {
-		return x.db.Funcs[n.Obj().Pkg().Path()+"."+n.Obj().Name()+".call"]
+		if fs := x.db.Funcs[n.Obj().Pkg().Path()+"."+n.Obj().Name()+".call"]; fs != nil {
+			return fs
+		}
+	}
+	// contract attached to a struct field holding the function: key "pkgpath.Struct.field.call"
+	var st types.Type
+	idx := -1
+	switch v := cc.Value.(type) {
+	case *ssa.UnOp:
+		if fa, ok := v.X.(*ssa.FieldAddr); ok {
+			st, idx = ptrElem(fa.X.Type()), fa.Field
+		}
+	case *ssa.Field:
+		st, idx = v.X.Type(), v.Field
+	}
+	if n, ok := st.(*types.Named); ok && n.Obj().Pkg() != nil && idx >= 0 {
+		if sn, ok := n.Underlying().(*types.Struct); ok && idx < sn.NumFields() {
+			return x.db.Funcs[n.Obj().Pkg().Path()+"."+n.Obj().Name()+"."+sn.Field(idx).Name()+".call"]
+		}
 	}
 	return nil
+}
+
+// externalEffect: a call that leaves the verified code without a contract. Under the policy "preserve-ghosts"
+// (framework code never calls back into the protocol functions) the heap is forgotten, ghost state kept, no panic.
+func (x *Engine) externalEffect(st *State, what string) bool {
+	if x.extPolicy != "preserve-ghosts" {
+		return false
+	}
+	x.abstracted(what + " (policy: heap forgotten except fields of the package's unexported struct types, ghost state kept, assumed not to panic)")
+	ghosts := map[string]string{}
+	for k := range x.compSort {
+		if strings.HasPrefix(k, "ghost:") || x.privateField(k) {
+			ghosts[k] = x.get(st, k)
+		}
+	}
+	x.havocAll(st)
+	for k, v := range ghosts {
+		st.h[k] = v
+	}
+	x.bumpEpoch(st)
+	return true
+}
+
+// privateField: a field of an unexported struct type declared in one of the packages under verification. Code of
+// other modules cannot name such a type; the adapters never hand out pointers to their option structs.
+func (x *Engine) privateField(key string) bool {
+	if !strings.HasPrefix(key, "F:") {
+		return false
+	}
+	for p := range x.initialPkgs {
+		pre := "F:" + shortPkg(p) + "."
+		if strings.HasPrefix(key, pre) && len(key) > len(pre) && key[len(pre)] >= 'a' && key[len(pre)] <= 'z' {
+			return true
+		}
+	}
+	return false
 }
 
 // inline executes the callee's body in place.
@@ -423,7 +508,7 @@ func (x *Engine) applyContract(fr *Frame, st *State, fs *FuncSpec, sig *types.Si
 	}
 	// panicked() inside an always clause: whether this call ended in a panic
 	pc := Val{T: "false", Sort: "Bool"}
-	if fs.Panics == "may" {
+	if fs.Panics == "may" || fs.Panics == "callees" {
 		pc = x.freshVal("maypanic", types.Typ[types.Bool], nil)
 	}
 	env["$panicked"] = Val{T: pc.T, Sort: "Bool"}
@@ -433,7 +518,7 @@ func (x *Engine) applyContract(fr *Frame, st *State, fs *FuncSpec, sig *types.Si
 			x.assume(st, x.safeEvalBool(ev, c))
 		}
 	}
-	if fs.Panics == "may" {
+	if fs.Panics == "may" || fs.Panics == "callees" {
 		fr.panics = append(fr.panics, exit{cond: x.name("pc", "Bool", andTerms(st.live, pc.T)), st: st.clone(), origin: "callee-panic[" + shortKey(key) + "]@" + pos})
 		st.live = x.name("live", "Bool", andTerms(st.live, notTerm(pc.T)))
 	}
